@@ -1,4 +1,5 @@
 import CwPlus.Props.C01
+import CwPlus.Props.Cw20Mixed
 /-!
 # C13 — cw20: only the current minter mints, and never beyond the cap
 
@@ -289,6 +290,203 @@ theorem migrate_inv13 {cap0 : Option Nat} {s s' : State} (h : migrate s = .ok s'
   obtain ⟨_, _, h⟩ := h
   split at h <;> (simp at h; subst h; exact ⟨rfl, rfl, fun hi => hi⟩)
 
+/-! ## Exactly when a mint succeeds; nobody but the minter; renouncing as one statement -/
+
+/-- **C13, clauses 1 + 2 as an equivalence** (under the C01 invariant `supply = Σ balances ≤ u128`): a `mint`
+succeeds **iff** the sender is the stored minter, the new supply fits `Uint128`, it respects the stored cap
+(if any) and the recipient validates.  Nothing else can make it fail: the recipient's balance cannot overflow
+(it is part of the supply), so the room under the cap — also room made by burns — is always usable by the
+minter, and by nobody else. -/
+theorem mint_ok_iff {s : State} {blk : Block} {snd : Addr} {to : AddrArg} {amt : Nat} (hi : C01.Inv s) :
+    (∃ r, execute s blk snd (.mint to amt) = .ok r) ↔
+      ∃ m, s.mint = some m ∧ m.minter = snd ∧ s.supply + amt ≤ U128_MAX
+        ∧ (∀ c, m.cap = some c → s.supply + amt ≤ c) ∧ to.valid = true := by
+  constructor
+  · rintro ⟨r, h⟩
+    simp only [execute] at h
+    unfold execMint at h
+    split at h
+    · simp at h
+    · rename_i m hm
+      simp at h
+      obtain ⟨hs, hle, hcap, hv, _⟩ := h
+      refine ⟨m, hm, hs, hle, ?_, hv⟩
+      intro c hc; simpa [hc] using hcap
+  · rintro ⟨m, hm, hs, hle, hcap, hv⟩
+    have hb := AMap.get?_le_sum s.balances to.text
+    have hcr : (s.balances.get? to.text).getD 0 + amt ≤ U128_MAX := by rw [← hi.1] at hb; omega
+    refine ⟨({ s with supply := s.supply + amt,
+                      balances := s.balances.set to.text ((s.balances.get? to.text).getD 0 + amt) }, []), ?_⟩
+    simp only [execute]
+    unfold execMint
+    rw [hm]
+    simp [hs, hle, hv, credit, hcr]
+    cases hcap' : m.cap with
+    | none => rfl
+    | some c => simpa using hcap c hcap'
+
+/-- An `updateMinter` by anybody but the stored minter fails (also when no minter is stored). -/
+theorem update_minter_by_other_fails {s : State} {blk : Block} {snd : Addr} {new : Option AddrArg}
+    (hne : ∀ m, s.mint = some m → m.minter ≠ snd) : ∃ e, execute s blk snd (.updateMinter new) = .error e := by
+  cases hx : execute s blk snd (.updateMinter new) with
+  | error e => exact ⟨e, rfl⟩
+  | ok r =>
+    obtain ⟨m, hm, hs⟩ := update_minter_requires_minter (s' := r.1) (out := r.2) hx
+    exact absurd hs (hne m hm)
+
+/-- **C13, clause 3, converse**: the stored minter can always hand the role to any validating address, or
+renounce it — `updateMinter` succeeds iff the sender is the stored minter and the new address (if any)
+validates. -/
+theorem update_minter_ok_iff {s : State} {blk : Block} {snd : Addr} {new : Option AddrArg} :
+    (∃ r, execute s blk snd (.updateMinter new) = .ok r) ↔
+      (∃ m, s.mint = some m ∧ m.minter = snd) ∧ (∀ a, new = some a → a.valid = true) := by
+  constructor
+  · rintro ⟨r, h⟩
+    rcases execute_cases (s' := r.1) (out := r.2) h with ⟨_, _, hn⟩ | ⟨_, _, _, he, _⟩ | ⟨new', m, he, hm, hs, _, _, hv⟩
+    · exact absurd rfl (hn new)
+    · cases he
+    · cases he; exact ⟨⟨m, hm, hs⟩, hv⟩
+  · rintro ⟨⟨m, hm, hs⟩, hv⟩
+    simp only [execute]
+    unfold execUpdateMinter
+    rw [hm]
+    cases new with
+    | none => exact ⟨_, by simp [hs]; rfl⟩
+    | some a => exact ⟨_, by simp [hs, hv a rfl]; rfl⟩
+
+/-- **C13, clause 4 as one statement**: once no minter is stored (renounced, or never given), after **every**
+later history, **every** `mint` and **every** `updateMinter` — any sender, recipient, amount (also 0), new
+address, block — fails. -/
+theorem renounced_all_fail {s : State} (hm : s.mint = none) (ops : List (Block × Addr × Msg))
+    (blk : Block) (snd : Addr) (to : AddrArg) (amt : Nat) (new : Option AddrArg) :
+    (∃ e, execute (run s ops) blk snd (.mint to amt) = .error e)
+    ∧ (∃ e, execute (run s ops) blk snd (.updateMinter new) = .error e) := by
+  have h0 := (renounce_permanent hm ops).1
+  exact ⟨mint_by_other_fails (fun m hm' => by rw [h0] at hm'; cases hm'),
+    update_minter_by_other_fails (fun m hm' => by rw [h0] at hm'; cases hm')⟩
+
+/-- A successful `updateMinter none` (only the minter can send it) leaves no minter, hence starts the regime of
+`renounced_all_fail`: nobody mints or appoints a minter ever again, the supply never rises again. -/
+theorem renounce_then_all_fail {s s' : State} {blk0 : Block} {snd0 : Addr} {out : List Out}
+    (h : execute s blk0 snd0 (.updateMinter none) = .ok (s', out)) (ops : List (Block × Addr × Msg))
+    (blk : Block) (snd : Addr) (to : AddrArg) (amt : Nat) (new : Option AddrArg) :
+    (∃ e, execute (run s' ops) blk snd (.mint to amt) = .error e)
+    ∧ (∃ e, execute (run s' ops) blk snd (.updateMinter new) = .error e)
+    ∧ (run s' ops).supply ≤ s.supply := by
+  have hm : s'.mint = none := by
+    rcases execute_cases h with ⟨_, _, hn⟩ | ⟨_, _, _, he, _⟩ | ⟨new', m, he, _, _, _, em, _⟩
+    · exact absurd rfl (hn none)
+    · cases he
+    · cases he; rw [em]; rfl
+  have hs : s'.supply = s.supply := C01.supply_delta h
+  obtain ⟨a, b⟩ := renounced_all_fail hm ops blk snd to amt new
+  exact ⟨a, b, by have := (renounce_permanent hm ops).2; omega⟩
+
+/-- **Former minter loses the role**: after a successful hand-over to another address, the former minter can
+neither mint (any recipient, any amount, also 0) nor move the role, at any later block. -/
+theorem former_minter_fails {s s' : State} {blk : Block} {snd : Addr} {a : AddrArg} {out : List Out}
+    (h : execute s blk snd (.updateMinter (some a)) = .ok (s', out)) (hne : a.text ≠ snd)
+    (blk' : Block) (to : AddrArg) (amt : Nat) (new : Option AddrArg) :
+    (∃ e, execute s' blk' snd (.mint to amt) = .error e)
+    ∧ (∃ e, execute s' blk' snd (.updateMinter new) = .error e) := by
+  have hm : ∃ c, s'.mint = some ⟨a.text, c⟩ := by
+    rcases execute_cases h with ⟨_, _, hn⟩ | ⟨_, _, _, he, _⟩ | ⟨new', m, he, _, _, _, em, _⟩
+    · exact absurd rfl (hn (some a))
+    · cases he
+    · cases he; exact ⟨m.cap, by rw [em]; rfl⟩
+  obtain ⟨c, hm⟩ := hm
+  have hno : ∀ m, s'.mint = some m → m.minter ≠ snd := by
+    intro m hm'; rw [hm] at hm'; cases hm'; exact hne
+  exact ⟨mint_by_other_fails hno, update_minter_by_other_fails hno⟩
+
+/-- … and keeps failing over every later history in which the role does not come back to it: if after the
+history the stored minter (if any) is somebody else, the former minter's `mint` and `updateMinter` fail.
+(The role can come back only by an `updateMinter` of the then-current minter: `update_minter_auth`.) -/
+theorem non_minter_fails_after (s : State) (ops : List (Block × Addr × Msg)) (snd : Addr)
+    (hne : ∀ m, (run s ops).mint = some m → m.minter ≠ snd) (blk : Block) (to : AddrArg) (amt : Nat)
+    (new : Option AddrArg) :
+    (∃ e, execute (run s ops) blk snd (.mint to amt) = .error e)
+    ∧ (∃ e, execute (run s ops) blk snd (.updateMinter new) = .error e) :=
+  ⟨mint_by_other_fails hne, update_minter_by_other_fails hne⟩
+
+/-- **Minted ledger vs. cap**: instantiated with cap `c`, over any history the initial supply plus everything
+ever minted stays within the cap plus everything ever burned (`C01.supply_ledger` + `supply_le_cap`): burns,
+and only burns, make room for further mints. -/
+theorem minted_within_cap {m : InstMsg} {s : State} {a : AddrArg} {c : Nat} (h : instantiate m = .ok s)
+    (hm : m.mint = some (a, some c)) (ops : List (Block × Addr × Msg)) :
+    s.supply + C01.minted s ops ≤ c + C01.burned s ops := by
+  have h1 := C01.supply_ledger s ops
+  have h2 := supply_le_cap h hm ops
+  omega
+
+/-! ## Histories that contain migrations -/
+
+open CwPlus.Props.C19 (Op stepOp runOps) in
+theorem stepOp_inv13 {cap0 : Option Nat} {s : State} (op : Op) (hi : Inv13 cap0 s) : Inv13 cap0 (stepOp s op) := by
+  cases op with
+  | exec blk snd msg => exact step_inv13 blk snd msg hi
+  | migrate =>
+    obtain ⟨_, h2, h3, _⟩ := Cw20Mixed.stepOp_migrate_frame s
+    unfold Inv13 at *; rw [h2, h3]; exact hi
+
+open CwPlus.Props.C19 (Op stepOp runOps) in
+theorem runOps_inv13 {cap0 : Option Nat} {s : State} (hi : Inv13 cap0 s) (ops : List Op) :
+    Inv13 cap0 (runOps s ops) := by
+  induction ops generalizing s with
+  | nil => exact hi
+  | cons op rest ih => exact ih (stepOp_inv13 op hi)
+
+open CwPlus.Props.C19 (Op stepOp runOps) in
+/-- **C13, clause 2 over histories with migrations**: after any accepted instantiation and any history of
+execute calls and `migrate` calls in any order, every holder of the minter role carries the cap of the
+instantiate message and the supply does not exceed it. -/
+theorem reach_cap_mixed {m : InstMsg} {s : State} (h : instantiate m = .ok s) (ops : List Op) :
+    Inv13 (instCap m) (runOps s ops) :=
+  runOps_inv13 (instantiate_inv13 h) ops
+
+open CwPlus.Props.C19 (Op stepOp runOps) in
+/-- Readable corollary, also for the tokens that exist: with cap `c`, supply and Σ balances stay ≤ `c` over
+every mixed history. -/
+theorem supply_le_cap_mixed {m : InstMsg} {s : State} {a : AddrArg} {c : Nat} (h : instantiate m = .ok s)
+    (hm : m.mint = some (a, some c)) (ops : List Op) :
+    (runOps s ops).supply ≤ c ∧ AMap.sum (runOps s ops).balances ≤ c := by
+  have h1 := (reach_cap_mixed h ops).2 c (by simp [instCap, hm])
+  have h2 := (Cw20Mixed.reach_inv_mixed h ops).1
+  exact ⟨h1, by omega⟩
+
+open CwPlus.Props.C19 (Op stepOp runOps) in
+/-- **C13, clause 4 over histories with migrations**: once no minter is stored, no history of execute and
+`migrate` calls brings one back, the supply never rises, and every `mint` / `updateMinter` afterwards fails. -/
+theorem renounce_permanent_mixed {s : State} (hm : s.mint = none) (ops : List Op) :
+    (runOps s ops).mint = none ∧ (runOps s ops).supply ≤ s.supply
+    ∧ ∀ blk snd to amt new,
+      (∃ e, execute (runOps s ops) blk snd (.mint to amt) = .error e)
+      ∧ (∃ e, execute (runOps s ops) blk snd (.updateMinter new) = .error e) := by
+  have key : (runOps s ops).mint = none ∧ (runOps s ops).supply ≤ s.supply := by
+    induction ops generalizing s with
+    | nil => exact ⟨hm, Nat.le_refl _⟩
+    | cons op rest ih =>
+      have hstep : (stepOp s op).mint = none ∧ (stepOp s op).supply ≤ s.supply := by
+        cases op with
+        | exec blk snd msg => exact step_no_minter blk snd msg hm
+        | migrate =>
+          obtain ⟨_, h2, h3, _⟩ := Cw20Mixed.stepOp_migrate_frame s
+          exact ⟨by rw [h3]; exact hm, by omega⟩
+      obtain ⟨h3, h4⟩ := ih hstep.1
+      exact ⟨h3, Nat.le_trans h4 hstep.2⟩
+  refine ⟨key.1, key.2, fun blk snd to amt new => ?_⟩
+  exact ⟨mint_by_other_fails (fun m hm' => by rw [key.1] at hm'; cases hm'),
+    update_minter_by_other_fails (fun m hm' => by rw [key.1] at hm'; cases hm')⟩
+
+open CwPlus.Props.C19 (Op stepOp runOps) in
+/-- Clause 1 over mixed histories: a `migrate` never raises the supply (so tokens are created only by the
+`mint` calls of `mint_only_minter`), and never changes who the minter is. -/
+theorem migrate_never_mints (s : State) :
+    (stepOp s .migrate).supply = s.supply ∧ (stepOp s .migrate).mint = s.mint
+    ∧ AMap.sum (stepOp s .migrate).balances = AMap.sum s.balances := by
+  obtain ⟨h1, h2, h3, _⟩ := Cw20Mixed.stepOp_migrate_frame s
+  exact ⟨h2, h3, by rw [h1]⟩
+
 /-! ## Non-vacuity: concrete histories exercising every clause -/
 
 /-- 125 tokens initially, minter `minter` with cap 200. -/
@@ -355,5 +553,49 @@ example : (instantiate { exInst with mint := none }).isOk = true
     ∧ (instantiate { exInst with mint := some (⟨true, "minter"⟩, none) }).isOk = true := by decide
 
 example : Inv13 (some 200) (run exState exOps) := reach_cap (m := exInst) rfl exOps
+
+
+/-! ### Non-vacuity of the added theorems -/
+
+/-- `mint_ok_iff` on the example: at supply 125 / cap 200 the minter can mint exactly up to 75 and not 76; a
+stranger cannot mint 0. -/
+example : (∃ r, execute exState exBlk "minter" (.mint ⟨true, "carol"⟩ 75) = .ok r)
+    ∧ ¬ (∃ r, execute exState exBlk "minter" (.mint ⟨true, "carol"⟩ 76) = .ok r)
+    ∧ ¬ (∃ r, execute exState exBlk "alice" (.mint ⟨true, "carol"⟩ 0) = .ok r) := by
+  have hi : C01.Inv exState := C01.reach_inv (m := exInst) rfl []
+  refine ⟨(mint_ok_iff hi).mpr ⟨_, rfl, rfl, by decide, by intro c hc; cases hc; decide, rfl⟩, ?_, ?_⟩
+  · intro h
+    obtain ⟨m, hm, _, _, hcap, _⟩ := (mint_ok_iff hi).mp h
+    cases hm
+    exact absurd (hcap 200 rfl) (by decide)
+  · intro h
+    obtain ⟨m, hm, hs, _⟩ := (mint_ok_iff hi).mp h
+    cases hm
+    exact absurd hs (by decide)
+
+/-- `former_minter_fails`: the first hand-over of the example history (minter → m2). -/
+example : ∃ s' out, execute (run exState (exOps.take 2)) exBlk "minter" (.updateMinter (some ⟨true, "m2"⟩)) = .ok (s', out)
+    ∧ (⟨true, "m2"⟩ : AddrArg).text ≠ "minter" := ⟨_, _, rfl, by decide⟩
+
+/-- `renounced_all_fail` / `renounce_then_all_fail`: the renouncing call of the example succeeds, so the
+theorem applies to every history after it. -/
+example : ∃ s' out, execute (run exState exOps) exBlk "m3" (.updateMinter none) = .ok (s', out) ∧ s'.mint = none :=
+  ⟨_, _, rfl, rfl⟩
+
+/-- `minted_within_cap` on the example history: 125 + (75 + 50) ≤ 200 + 50. -/
+example : C01.minted exState exOps = 125 ∧ C01.burned exState exOps = 50 := ⟨by rfl, by rfl⟩
+example : exState.supply + C01.minted exState exOps ≤ 200 + C01.burned exState exOps :=
+  minted_within_cap (m := exInst) (a := ⟨true, "minter"⟩) rfl rfl exOps
+
+/-- A mixed history: mint, migrate, hand-over, migrate, mint by the new minter up to the cap, renounce, and a
+final migrate; cap and clauses hold throughout (`reach_cap_mixed`, `renounce_permanent_mixed`). -/
+def exMixed : List C19.Op :=
+  [ .exec exBlk "minter" (.mint ⟨true, "carol"⟩ 25), .migrate,
+    .exec exBlk "minter" (.updateMinter (some ⟨true, "m2"⟩)), .migrate,
+    .exec exBlk "m2" (.mint ⟨true, "bob"⟩ 50), .exec exBlk "m2" (.updateMinter none), .migrate ]
+
+example : (C19.runOps exState exMixed).supply = 200 ∧ (C19.runOps exState exMixed).mint = none := by decide
+example : Inv13 (some 200) (C19.runOps exState exMixed) := reach_cap_mixed (m := exInst) rfl exMixed
+example : (C19.runOps exState (exMixed.take 5)).mint = some ⟨"m2", some 200⟩ := by decide
 
 end CwPlus.Props.C13
